@@ -60,7 +60,6 @@ func Once[S ~string, T comparable, V constraints.Signed](c *cache.Cache[S, T], f
 		c.Set("func", val, cache.DefaultExpiration)
 		return val
 	}
-	memo, _ = c.Get("func")
 
 	return memo.Val()
 }
